@@ -42,23 +42,26 @@ def plan(tier, seed):
 
 
 def unit_timeout(tier):
-    return 150 if tier == "quick" else 300
+    return 30 if tier == "quick" else 300
 
 
 def floors(tier):
     n = N_PROG[tier]
     return {"evals": n * 4, "distinct": max(2, n // 4),
-            "counters": {"model_calls_cse_on": n * 2, "model_calls_cse_off": n * 2}}
+            "counters": {"model_calls_cse_on": n * 2, "model_calls_cse_off": n * 2,
+                         "programs_with_angle_wrap_idioms": n // 8}}
 
 
 def setup_worker(ctx):
     monitors.install_python_hooks()
 
 
-def gen_defn(rng, tier):
+def gen_defn(rng, tier, wraps=None):
     depth = 3 if tier == "quick" else rng.choice([3, 3, 4])
+    if wraps is None:
+        wraps = rng.random() < 0.5
     return gen.program(rng, n_sensor=(0, 0), depth=depth, cpp_safe=False,
-                       dt_names=("dt", "dt", "T_s", "h_step"))
+                       dt_names=("dt", "dt", "T_s", "h_step"), wraps=wraps)
 
 
 def run_probe(unit, ctx):
@@ -104,7 +107,9 @@ def run_unit(unit, ctx):
         return run_probe(unit, ctx)
     R = K.Result()
     rng = K.unit_rng(ID, ctx["seed"], unit)
-    defn = gen_defn(rng, ctx["tier"])
+    defn = gen_defn(rng, ctx["tier"], unit.get("wraps"))
+    if any(w in __import__("json").dumps(defn["model"]) for w in ("asinsin", "acoscos", "atantan")):
+        R.stats.inc("programs_with_angle_wrap_idioms")
     fp = gen.fingerprint(defn)
     R.fps_all.append(fp)
     if gen.nontrivial_program(defn):
